@@ -193,6 +193,7 @@ func runC03(c *Check, w *World) {
 			}
 		}
 	}
+	checkDigitsInt(c, w, tb, "R03.7")
 	ruleHistoryIndependence(c, w, tb, ef, "R03.H", val)
 	checkRESTEndpoints(c, w, tb, ef, "R03.REST", "/hotp/validate")
 	c.Floor("R03.1", 1)
